@@ -91,9 +91,15 @@ def relations(o, rr, ff, fs, T, has_grid, n_grid):
         y = np.log10(Re_i / Re_iL) / np.log10(Re_iT / Re_iL)
         y = np.clip(y, 0.0, 1.0)
         m = fctd._m['turbulent']
-        ffi = fsctd._calc_ffb_tr(cf['laminar'] / Re_i,
-                                 cf['turbulent'] / Re_i ** m, y,
-                                 fsctd._GAMMA, lam)
+        # the transition law of the family, written out here (Cheng-Todreas
+        # 1986 eq. 9; Chen-Todreas 2018 eq. 4 adds the factor 1 - psi^7 on the
+        # laminar part): f = fL (1 - psi)^(1/3) [1 - psi^lam] + fT psi^(1/3)
+        fL_i = cf['laminar'] / Re_i
+        fT_i = cf['turbulent'] / Re_i ** m
+        ffi = fL_i * (1.0 - y) ** (1.0 / 3.0)
+        if lam:
+            ffi = ffi * (1.0 - y ** lam)
+        ffi = ffi + fT_i * y ** (1.0 / 3.0)
         rho = rr.coolant.density
         vb = p['vel']
         G = ffi * rho * (x * vb) ** 2 / (2 * de)
